@@ -27,6 +27,7 @@ m={
    "baseline_off_cmd":"cd /repo && cargo test --workspace --no-fail-fast --offline",
    "source_commits":["76eb74c","e97357c","5c100a2"],"add_only":True},
  "engines":[
+   {"name":"coq-W","path":"coq/W","serves_properties":["C11","C12","C13","C14"],"kind_free_text":"Coq 8.16.1 interleaving model of sync/waker.rs, channel.rs, thread.rs and poll_wake; coverage invariant proved inductive over all schedules; real code runs under the scheduler shim"},
    {"name":"coq-R","path":"coq/R","serves_properties":["C01","C02","C03","C04","C05","C06","C15","C16","C20"],"kind_free_text":"Coq 8.16.1 micro-op continuation machine model of core.rs/actor.rs/rc/ret/fwd/log with a reference-counted heap; invariants by step preservation and induction on fuel; harness/r interprets the same program DSL over the public API"},
    {"name":"coq-R+T","path":"tools/checks/layer_cfg.py","serves_properties":["C18"],"kind_free_text":"runtime programs and timer histories under all 19 feature configurations against the single model trace"},
    {"name":"coq-Q","path":"coq/Q","serves_properties":["C17"],"kind_free_text":"Coq 8.16.1 byte-level model of src/queue/flat.rs and list model of boxed.rs; refinement theorem over all op sequences; harness/q runs both real files side by side"},
